@@ -1094,8 +1094,15 @@ pub fn gen_members(
                     2 if rng.pct(50) => Some(format!("{}", rng.below(4))),
                     _ => None,
                 };
-                let code = if code.is_some() && rng.pct(4) {
-                    Some("99999999999".to_owned())
+                // boundary values of the usual integer widths, leading zeros, overflow
+                let code = if code.is_some() && rng.pct(12) {
+                    Some(
+                        rng.pick(&[
+                            "99999999999", "4294967295", "4294967296", "2147483647", "2147483648", "16777215",
+                            "16777216", "65535", "65536", "255", "256", "007", "00", "18446744073709551616",
+                        ])
+                        .to_string(),
+                    )
                 } else {
                     code
                 };
